@@ -5,7 +5,7 @@ import gens_algos
 from props.common import TRUSTED_BASE, ASSUMPTIONS
 
 ID = "C01"
-LEAN_MODULES = ["LexVerif.Props.C01", "LexVerif.Props.RoundNE", "LexVerif.Props.TablesParse", "LexVerif.Props.Literals.ParseFloatParse", "LexVerif.Props.Literals.ParseFloatNumber", "LexVerif.Props.Literals.ParseFloatLemire", "LexVerif.Props.Literals.ParseFloatBellerophon", "LexVerif.Props.Literals.ParseFloatSlow", "LexVerif.Props.Literals.ParseFloatBigint", "LexVerif.Props.Literals.ParseFloatShared", "LexVerif.Props.Literals.ParseFloatFloat", "LexVerif.Props.Literals.ParseFloatMask", "LexVerif.Props.Literals.ParseFloatLimits", "LexVerif.Props.Literals.ParseIntegerAlgorithm", "LexVerif.Props.Literals.UtilDigit", "LexVerif.Props.Literals.UtilStep"]
+LEAN_MODULES = ["LexVerif.Props.C01", "LexVerif.Props.RoundNE", "LexVerif.Props.TablesParse", "LexVerif.Props.Literals.ParseFloatParse", "LexVerif.Props.Literals.ParseFloatNumber", "LexVerif.Props.Literals.ParseFloatLemire", "LexVerif.Props.Literals.ParseFloatBellerophon", "LexVerif.Props.Literals.ParseFloatSlow", "LexVerif.Props.Literals.ParseFloatBigint", "LexVerif.Props.Literals.ParseFloatShared", "LexVerif.Props.Literals.ParseFloatFloat", "LexVerif.Props.Literals.ParseFloatMask", "LexVerif.Props.Literals.ParseFloatLimits", "LexVerif.Props.Literals.ParseIntegerAlgorithm", "LexVerif.Props.Literals.UtilDigit", "LexVerif.Props.Literals.UtilStep", "LexVerif.Props.LiteralsModel"]
 GEN = ["parse_tables", "literals"]
 TRUSTED = TRUSTED_BASE + [
     "Eisel-Lemire is proved only on the exact-product range 0 <= q <= 27, the two cut-offs and for the many_digits wrapper (relative to compute_float); for q in [-342,-1] and [28,308] (truncated table rows) and for the big-integer slow path correctness is NOT proved in Lean: there the Lean model (Model/Lemire.lean) is tied to the code by component-level correspondence and compared with the oracle on number-theoretic worst cases; Bellerophon (compact builds) IS proved sound on its Lean model (Props/C01.lean bellerophon_sound), the model being tied to the code by the bel component stream",
